@@ -252,6 +252,43 @@ theorem bestOfGroupOld_tie_witness : ¬ EnumerationInvariant bestOfGroupOld := b
   revert this
   decide
 
+/-! ## stage `build_results`: genes of pre-existing subregions outside every protocluster -/
+
+/-- `cds_results_outside_clusters` (the "outside_protoclusters" list of the saved JSON) is built by
+    walking each subregion's genes in position order; the set `cdses_with_annotations` is only asked
+    for membership, so however it iterates — any two enumerations with the same members, repeats
+    allowed — the list is the same -/
+theorem outsideResults_enumeration_invariant (hasDomains : Int → Bool) (subregions : List (List Int))
+    (a₁ a₂ : List Int) (h : ∀ x, x ∈ a₁ ↔ x ∈ a₂) :
+    outsideResults hasDomains a₁ subregions = outsideResults hasDomains a₂ subregions :=
+  outsideResults_congr hasDomains subregions h
+
+/-- the code is the set-difference loop with the identity enumerator on this layout, and the shape
+    the property forbids (`for cds in set(subregion.cds_children).difference(…)`) follows the set's
+    iteration order: genes 1, 2, 3 in one subregion, gene 2 already annotated -/
+theorem outsideResults_set_walk_witness :
+    outsideResultsSetE id (fun _ => true) [2] [[1, 2, 3]] = outsideResults (fun _ => true) [2] [[1, 2, 3]] ∧
+    outsideResults (fun _ => true) [2] [[1, 2, 3]] = [1, 3] ∧
+    outsideResultsSetE List.reverse (fun _ => true) [2] [[1, 2, 3]] = [3, 1] := by decide
+
+/-! ## stage `sideloadByCds`: `--sideload-by-cds tag,tag,…` -/
+
+/-- the subregions are created in the order of the tags on the command line: the labels of the
+    result are exactly the known tags, in input order (repeats kept) — a function of the input LIST,
+    no set of names is walked -/
+theorem subregionsByCds_follow_the_tag_list (circular : Bool) (L pad : Int) (lookup : Int → Option (Int × Int))
+    (markers : List Int) :
+    (subregionsByCds circular L pad lookup markers).map (·.2.2) = markers.filter fun n => (lookup n).isSome :=
+  subregionsByCds_labels circular L pad lookup markers
+
+/-- walking `set(cds_markers)` instead makes the list follow the string hash: two tags on a 5 kb contig
+    with 20 kb padding (both subregions cover the whole contig and tie), in the two possible orders -/
+theorem subregionsByCds_set_walk_witness :
+    subregionsByCds false 5000 20000 (fun n => if n = 0 then some (1000, 1300) else if n = 1 then some (3000, 3300) else none) [0, 1] =
+      [(0, 5000, 0), (0, 5000, 1)] ∧
+    subregionsByCds false 5000 20000 (fun n => if n = 0 then some (1000, 1300) else if n = 1 then some (3000, 3300) else none) [1, 0] =
+      [(0, 5000, 1), (0, 5000, 0)] := by decide
+
 /-! ## stage `writeRecord` (Feature.to_biopython + Record.to_biopython → GenBank / JSON) -/
 
 /-- no hash-ordered container reaches the output order: the features are emitted from a stable
